@@ -1706,7 +1706,7 @@ def no_container_rendering(repo: Repo, R: Report, sl: List[Tuple[str, str, ast.A
     """C04-D2b: what is hashed holds no repr()/str() text of a mapping, set or list of mappings."""
     from ..cfg import CFG
 
-    r = R.rule("C04-D2b-no-container-text-in-hashed-value", "in the functions that produce hashed values (canonical node, preprocessor metadata, domain signatures, id functions and what they call) a value is turned into text by repr()/ascii()/%r/!r only where it cannot be a mapping, set or list - it is a scalar on every path there (isinstance guard), containers are routed elsewhere first, or json.dumps was tried on the same value and failed - and by str()/format()/f-string only where it has not just been proven to be a non-scalar: the repr of a mapping follows insertion (YAML key) order and the repr of a set follows the hash seed, and no later json.dumps(sort_keys=True) can reorder text", 12)
+    r = R.rule("C04-D2b-no-container-text-in-hashed-value", "in the functions that produce hashed values (canonical node, preprocessor metadata, domain signatures, id functions and what they call) a value is turned into text by repr()/ascii()/%r/!r only where it cannot be a mapping, set or list - it is a scalar on every path there (isinstance guard) or containers are routed elsewhere first (a rendering that is only the fallback after json.dumps failed on the same value is still such a rendering: reported under its own label) - and by str()/format()/f-string only where it has not just been proven to be a non-scalar: the repr of a mapping follows insertion (YAML key) order and the repr of a set follows the hash seed, and no later json.dumps(sort_keys=True) can reorder text", 12)
     hashed = [(rel, qn, f) for rel, qn, f in sl if not any(rel == drel and (qn == dqn or qn.startswith(dqn + ".")) for drel, dqn in DISPLAY_ROOTS)]
     seen: Set[int] = set()
     for m, f0 in _closure_of(repo, hashed):
@@ -1726,18 +1726,29 @@ def no_container_rendering(repo: Repo, R: Report, sl: List[Tuple[str, str, ast.A
                 scalar, excl = _kind_atoms(x_text)
                 json_failed = lambda test, _t=x_text, _m=m: _json_predicate(repo, _m, test, _t)  # noqa: E731
                 if is_repr:
-                    ok = _guarded(g, f, site, scalar) or all(_guarded(g, f, site, a) for a in excl) or _json_failed_fallback(repo, m, f, site, x_text) or _guarded(g, f, site, json_failed)
+                    ok = _guarded(g, f, site, scalar) or all(_guarded(g, f, site, a) for a in excl)
                     why = f"`{norm(site)[:60]}` renders `{x_text[:40]}` as text and nothing on the way there rules out a mapping / set / list (no isinstance guard for scalars, containers not routed elsewhere, not the fallback of a failed json.dumps of the same value): for a mapping the text follows the YAML key order, for a set the hash seed, and it is hashed as an opaque string - reordering keys inside that value changes node semantic id, semantic id and config id"
                 else:
                     # str()/format()/f"{x}": only when the branch taken proves the value is NOT a scalar (the else-arm of a scalar test)
                     def non_scalar(test: ast.AST, _t=x_text) -> Optional[bool]:
                         t = _isinstance_of(test, _t)
                         return False if t is not None and "str" in t and t <= SCALAR_TYPES else None
-                    ok = not _guarded(g, f, site, non_scalar) or all(_guarded(g, f, site, a) for a in excl) or _json_failed_fallback(repo, m, f, site, x_text) or _guarded(g, f, site, json_failed)
+                    ok = not _guarded(g, f, site, non_scalar) or all(_guarded(g, f, site, a) for a in excl)
                     why = f"`{norm(site)[:60]}` is reached only when `{x_text[:40]}` is not a scalar, and renders it as text: for a mapping the text follows the YAML key order, for a set the hash seed, and it is hashed as an opaque string"
                 if not ok:
                     n_bad += 1
-                    R.violation(r, m.rel, qn, norm(stmt_of(site))[:110], why, getattr(site, "lineno", 0))
+                    # the last-resort rendering of a value json.dumps rejected is reported under a spelling-independent
+                    # label (it is a recorded finding on the pinned tree; renaming a local must not make it look new)
+                    fallback = _json_failed_fallback(repo, m, f, site, x_text) or _guarded(g, f, site, json_failed)
+                    label = norm(stmt_of(site))[:110]
+                    where = qn
+                    if fallback:
+                        # role of the text: hashed (argument of a hashlib / _sha256 call) or handed on as a value
+                        hashed_here = any(isinstance(a, ast.Call) and ("sha" in (call_name(a) or "").lower() or "md5" in (call_name(a) or "").lower()) for a in ancestors(site))
+                        label = "last-resort text rendering of a value json.dumps rejected: " + ("hashed as a digest" if hashed_here else "handed on as a value")
+                        where = "<domain-signature fallback>"
+                        why += f" - in {qn}: this is the fallback taken when the value is not JSON-serialisable, exactly the values for which key order / hash seed leak into the ids"
+                    R.violation(r, m.rel, where, label, why, getattr(site, "lineno", 0))
             if not n_bad:
                 R.ok(r, m.rel, qn, f"{qn}: no container rendered as text", "", getattr(f, "lineno", 0))
 
